@@ -185,7 +185,7 @@ SPECS = {
                 + jobs_generic(APPROX, "c13a", 40, 400, n=4, alpha="approx")(tier, seed)
                 + jobs_generic([["SolverHybrid", {}]], "c13h", 40, 400, n=2, alpha="approx",
                                cfg={"hybrid_exact": False})(tier, seed),
-                clauses=QUERY_CLAUSES | TRUTH_CLAUSES | APPROX_CLAUSES, level="model_checking"),
+                clauses=QUERY_CLAUSES | TRUTH_CLAUSES | APPROX_CLAUSES, level="model_checking", k1r=True),
     "C14": dict(jobs=lambda tier, seed: jobs_generic(ALL_EXACT + [["SolverReplacementCacheless", {}]], "c14", 40, 400, n=12,
                                                      branchy=True)(tier, seed)
                 + jobs_generic([["SolverHybrid", {}], ["SolverVSA", {}]], "c14a", 40, 400, n=4, branchy=True, alpha="approx",
@@ -448,6 +448,155 @@ def explore_composite(tier, seed, budget):
     return stats, hists, expect
 
 
+def tla_lit(t):
+    """term (nested lists) -> TLA+ literal"""
+    if isinstance(t, str):
+        return '"' + t + '"'
+    if isinstance(t, bool):
+        return "TRUE" if t else "FALSE"
+    if isinstance(t, int):
+        return str(t)
+    return "<<" + ", ".join(tla_lit(x) for x in t) + ">>"
+
+
+def parse_tla(text):
+    """TLA+ value printed by TLC (tuples, sets, strings, naturals, booleans) -> nested Python lists (sets as sorted lists)"""
+    import re
+    toks = re.findall(r'<<|>>|\{|\}|,|"[^"]*"|-?\d+|TRUE|FALSE', text)
+    pos = [0]
+
+    def val():
+        t = toks[pos[0]]
+        pos[0] += 1
+        if t in ("<<", "{"):
+            close = ">>" if t == "<<" else "}"
+            out = []
+            while toks[pos[0]] != close:
+                if toks[pos[0]] == ",":
+                    pos[0] += 1
+                    continue
+                out.append(val())
+            pos[0] += 1
+            return sorted(out, key=json.dumps) if t == "{" else out
+        if t.startswith('"'):
+            return t[1:-1]
+        if t in ("TRUE", "FALSE"):
+            return t == "TRUE"
+        return int(t)
+    return val()
+
+
+def replacement_alphabet():
+    from . import term as TM
+    W = 2
+    x, y, b = TM.BVS("x", W), TM.BVS("y", W), TM.BoolS("b")
+    k = lambda v: TM.BVV(v, W)  # noqa: E731
+    cons = [TM.T("__eq__", x, k(1)), TM.T("__eq__", TM.T("__xor__", x, k(1)), k(3)), TM.T("__eq__", y, x),
+            TM.T("__ne__", x, k(1)), TM.T("ULT", y, k(2)), TM.T("__eq__", x, k(2)), TM.T("Not", b),
+            TM.T("Or", b, TM.T("__eq__", x, k(3)))]
+    qs = [x, TM.T("__xor__", x, k(1)), y, TM.T("__add__", x, y), TM.T("If", b, x, y)]
+    return {"cons": cons, "qs": qs, "vars": [["x", W], ["y", W], ["b", 0]], "W": W}
+
+
+def explore_replacement(tier, seed, budget):
+    """K1 for SolverReplacement: TLC explores spec/SolverReplacement.tla (term semantics of Term.tla; invariants
+    ReplImplied, CacheImplied, ActualEquiv; action property OnlyKnown; negative control Strict, whose counterexample is
+    the known finding derived from the model alone); every reachable state x input is replayed on the real class with the
+    model's replacement dictionary as the expected refined state"""
+    import random
+    import re
+    import shutil
+    import subprocess
+    import tempfile
+    from . import term as TM
+    A = replacement_alphabet()
+    for t in A["cons"] + A["qs"]:
+        if json.dumps(TM.ser(TM.build(t, "std"))) != json.dumps(t):
+            raise C.MachineryError("alphabet term is rewritten by claripy when built (the model works on built terms): %s -> %s"
+                                   % (t, TM.ser(TM.build(t, "std"))))
+    d = tempfile.mkdtemp(prefix="k1r-", dir=C.scratch())
+    for m in ("SolverReplacement.tla", "Term.tla", "BVBits.tla"):
+        shutil.copy(os.path.join(C.SPEC, m), d)
+    depth = 3 if tier == "quick" else 4
+    with open(os.path.join(d, "MC.tla"), "w") as f:
+        f.write("---- MODULE MC ----\nEXTENDS SolverReplacement\n"
+                f"MC_Cons == {tla_lit(A['cons'])}\nMC_Qs == {tla_lit(A['qs'])}\nMC_VarsL == {tla_lit(A['vars'])}\n====\n")
+    base = (f"CONSTANTS\n MaxDepth = %d\n Cs <- MC_Cons\n Qs <- MC_Qs\n VarsL <- MC_VarsL\nSPECIFICATION Spec\n"
+            "CONSTRAINT DepthOK\nVIEW view\n%s\nINVARIANT ReplImplied\nINVARIANT CacheImplied\nINVARIANT ActualEquiv\n"
+            "CHECK_DEADLOCK FALSE\n")
+    with open(os.path.join(d, "MC.cfg"), "w") as f:
+        f.write(base % (depth, "PROPERTY OnlyKnown"))
+    with open(os.path.join(d, "MCneg.cfg"), "w") as f:
+        f.write(base % (3, "PROPERTY Strict"))
+    java = ["java", "-XX:+UseParallelGC", "-Xss64m", "-Xmx8g", "-cp", C.TLA_CP, "tlc2.TLC", "-workers", "8", "-noGenerateSpecTE"]
+    pn = subprocess.run(java + ["-metadir", os.path.join(d, "mdn"), "-config", "MCneg.cfg", "MC.tla"], cwd=d,
+                        capture_output=True, text=True, timeout=1800)
+    outn = pn.stdout + pn.stderr
+    if "Strict is violated" not in outn.replace("\n", " ") and "is violated" not in outn:
+        raise C.MachineryError("SolverReplacement: the strict refinement property is NOT refuted by the model (the known finding "
+                               "is expected as its counterexample):\n" + outn[-1500:])
+    p = subprocess.run(java + ["-metadir", os.path.join(d, "md"), "-config", "MC.cfg", "-dump", os.path.join(d, "states"),
+                               "-coverage", "1", "MC.tla"], cwd=d, capture_output=True, text=True, timeout=3000)
+    out = p.stdout + p.stderr
+    st = C.tlc_stats(out)
+    if st is None:
+        raise C.MachineryError("SolverReplacement exploration failed:\n" + out[-3000:])
+    stats = {"states": st["distinct"], "transitions": st["generated"], "depth": depth, "model_violation": None,
+             "strict_property_refuted": True}
+    if "is violated" in out:
+        stats["model_violation"] = re.findall(r"Error: (.* is violated.*)", out)[:1]
+    for act in ("Add", "Sat", "EvalQ"):
+        m = re.search(r"<%s line \d+, col \d+ to line \d+, col \d+ of module SolverReplacement[^>]*>: (\d+):(\d+)" % act, out)
+        if not m or int(m.group(2)) == 0:
+            raise C.MachineryError(f"vacuity: action {act} of SolverReplacement was never taken")
+    with open(os.path.join(d, "states.dump")) as f:
+        text = f.read()
+    shutil.rmtree(d, ignore_errors=True)
+    states = []
+    for block in re.split(r"^State \d+:\s*$", text, flags=re.M)[1:]:
+        pos = {v: block.index("/\\ %s = " % v) for v in ("repl", "cache", "actual", "added", "hist", "ret")}
+        order = sorted(pos, key=pos.get)
+        val = {}
+        for i, v in enumerate(order):
+            end = pos[order[i + 1]] if i + 1 < len(order) else len(block)
+            val[v] = block[pos[v]:end].split("=", 1)[1]
+        states.append({"repl": parse_tla(val["repl"]), "hist": parse_tla(val["hist"])})
+    if len(states) != st["distinct"]:
+        raise C.MachineryError(f"state dump has {len(states)} states, TLC reports {st['distinct']}")
+
+    def to_op(t):
+        o, a = t
+        if o == 1:
+            return ["add", 0, [A["cons"][a - 1]]]
+        if o == 2:
+            return ["satisfiable", 0, []]
+        return ["eval", 0, A["qs"][a - 1], 5, []]
+
+    inputs = [(1, c) for c in range(1, len(A["cons"]) + 1)] + [(2, 0)] + [(3, q) for q in range(1, len(A["qs"]) + 1)]
+    allh = [(sd, i) for sd in states for i in inputs]
+    stats["state_histories"] = len(states)
+    stats["transition_histories"] = len(allh)
+    rng = random.Random(seed)
+    if len(allh) > budget:
+        allh = [allh[i] for i in sorted(rng.sample(range(len(allh)), budget))]
+    stats["replayed"] = len(allh)
+    hists, expect = [], []
+    for sd, i in allh:
+        hists.append([["new", "SolverReplacement", {}]] + [to_op(t) for t in sd["hist"]] + [["replstate", 0], to_op(i)])
+        expect.append({"repl": sorted(sd["repl"], key=json.dumps)})
+    # candidate keys: every subterm of the alphabet
+    keys = []
+
+    def sub(t):
+        if t not in keys:
+            keys.append(t)
+        for a in t[3]:
+            sub(a)
+    for t in A["cons"] + A["qs"]:
+        sub(t)
+    return stats, hists, expect, keys
+
+
 def truth_stream(R, pid, tier, seed):
     """C10, solver level: is_true / is_false relative to constraints and extra constraints, on every frontend class incl.
     the VSA-backed ones, after adds / branch / merge / combine / split; only the over-claim clauses are C10's"""
@@ -500,6 +649,14 @@ def check(pid, tier, regen=False):
             if hists[k::n]:
                 jobs.append({"mode": "list", "W": 2, "alpha": "xyz", "histories": hists[k::n], "expect_parts": expect[k::n],
                              "probe": True, "tag": "k1c", "env": {"REUSE_Z3_SOLVER": "0"}})
+    k1r = None
+    if spec.get("k1r"):
+        k1r, hists, expect, keys = explore_replacement(tier, seed, 1200 if tier == "quick" else 40000)
+        n = 16
+        for k in range(n):
+            if hists[k::n]:
+                jobs.append({"mode": "list", "W": 2, "with_bool": True, "histories": hists[k::n], "expect_repl": expect[k::n],
+                             "probe": True, "tag": "k1r", "cfg": {"repl_keys": keys}, "env": {"REUSE_Z3_SOLVER": "0"}})
     bad, stats = C.pipeline("w_solver", jobs, "TraceSolver.tla")
     st = C.merge_stats(stats)
     mine = spec["clauses"]
@@ -565,6 +722,27 @@ def check(pid, tier, regen=False):
         if k1c["partition_drift"]:
             R.notes.append("SPEC-DRIFT: %d of %d replayed histories end in a partition other than the model's" %
                            (k1c["partition_drift"], k1c["partition_checked"]))
+    if k1r:
+        k1r["refined_state_checked"] = st.get("partition_checked", 0)
+        k1r["refined_state_drift"] = st.get("partition_drift", 0)
+        k1r["drift_samples"] = [x for s_ in stats for x in s_.get("drift_samples", [])][:3]
+        if k1r["refined_state_checked"] != k1r["replayed"]:
+            raise C.MachineryError(f"replacement state observed for {k1r['refined_state_checked']} of {k1r['replayed']} histories")
+        R.coverage["exploration"] = k1r
+        R.coverage["states"] = k1r["states"]
+        R.coverage["transitions"] = k1r["transitions"]
+        R.coverage["explanation"] = ("states/transitions: TLC exploration of the refined model spec/SolverReplacement.tla (term "
+                                     "semantics of Term.tla; invariants ReplImplied, CacheImplied, ActualEquiv; action property "
+                                     "OnlyKnown; the strict refinement property is refuted by TLC with the known finding as its "
+                                     "counterexample) to depth %d; %d of %d state x input histories replayed on the real class; "
+                                     "after the state's history the replacement dictionary of the real object is compared with "
+                                     "the model's (refined_state_drift: disagreements, no verdict)"
+                                     % (k1r["depth"], k1r["replayed"], k1r["transition_histories"]))
+        if k1r["model_violation"]:
+            R.notes.append("SPEC-DRIFT: refined model violates %s" % k1r["model_violation"])
+        if k1r["refined_state_drift"]:
+            R.notes.append("SPEC-DRIFT: %d of %d replayed histories end in a replacement dictionary other than the model's" %
+                           (k1r["refined_state_drift"], k1r["refined_state_checked"]))
     if k1:
         R.coverage["exploration"] = k1
         R.coverage["states"] = k1["states"]
